@@ -238,12 +238,6 @@ def show(p):
 # ---------------------------------------------------------------------------
 # denotation of a *source program* (see vf/specs/graphgen.py for the format)
 
-def leaf_atom(cls, rate, tag, nin):
-    """The atom of a tagged stateful leaf, as it must look in the bytes: class,
-    rate and the constant inputs it was created with."""
-    return None
-
-
 def den_source(prog):
     """-> (vals, outs) where vals[i] is the normal form of node i and
     outs = [(out_index, [normal forms of the channels])].
